@@ -622,6 +622,55 @@ static void sc_wb_clone_path(char **av, int ac)
 	LIB(kdump_free(ctx));
 }
 
+/* addrxlat_map_set histories (the interface's one atomicity promise): the ops a:e:m
+ * (hex start, end offset, method; -1 = none) are applied in order to a new map, with
+ * the n-th allocation of the whole history failing.  Every step reports its status and
+ * the exposed range list afterwards; a step that reported NOMEM must have left the
+ * list bit-identical (checked here and, by the orchestrator, with the C10 spec). */
+static void sc_wb_map_seq(char **av, int ac)
+{
+	addrxlat_map_t *map;
+	char *save = NULL, *t;
+	LIB(map = addrxlat_map_new());
+	if (!map) _exit(4);
+	out(" mapsteps=");
+	win_open();
+	for (t = strtok_r(av[0], ",", &save); t; t = strtok_r(NULL, ",", &save)) {
+		unsigned long long a, e; long long m;
+		addrxlat_range_t r, *before = NULL;
+		const addrxlat_range_t *rg;
+		size_t nb, i, n;
+		addrxlat_status st;
+		unsigned long fb = oom_failed_calls;
+		if (sscanf(t, "%llx:%llx:%lld", &a, &e, &m) != 3) _exit(5);
+		nb = addrxlat_map_len(map);
+		oom_track = 0;
+		before = __real_malloc((nb + 1) * sizeof *before);
+		memcpy(before, addrxlat_map_ranges(map), nb * sizeof *before);
+		oom_track = 1;
+		r.endoff = e; r.meth = (addrxlat_sys_meth_t)m;
+		st = addrxlat_map_set(map, a, &r);
+		if (oom_failed_calls != fb) {
+			if (st == ADDRXLAT_ERR_NOMEM) any_call_failed_ok = 1;
+			else if (!missed[0]) snprintf(missed, sizeof missed, "addrxlat_map_set=%d", (int)st);
+		}
+		n = addrxlat_map_len(map); rg = addrxlat_map_ranges(map);
+		if (st != ADDRXLAT_OK && (n != nb || memcmp(before, rg, n * sizeof *rg)))
+			surv_fail("map changed by a failed addrxlat_map_set (%zu -> %zu ranges)", nb, n);
+		out("S%d=", (int)st);
+		for (i = 0; i < n; ++i) {
+			out("%s%llx:", i ? "," : "", (unsigned long long)rg[i].endoff);
+			if ((long long)rg[i].meth < 0) out("-%llx", (unsigned long long)-(long long)rg[i].meth);
+			else out("%llx", (unsigned long long)rg[i].meth);
+		}
+		out(";");
+		oom_track = 0; __real_free(before); oom_track = 1;
+	}
+	note_held();
+	win_close();
+	LIB(addrxlat_map_decref(map));
+}
+
 static const struct { const char *name; void (*fn)(char **, int); int minargs; } scenarios[] = {
 	{ "new", sc_new, 0 }, { "clone", sc_clone, 2 }, { "open", sc_open, 1 }, { "reopen", sc_reopen, 1 },
 	{ "read", sc_read, 4 }, { "readstr", sc_readstr, 3 }, { "attrs", sc_attrs, 1 },
@@ -629,7 +678,7 @@ static const struct { const char *name; void (*fn)(char **, int); int minargs; }
 	{ "wb_xlat", sc_wb_xlat, 1 }, { "wb_fcache_new", sc_wb_fcache_new, 3 },
 	{ "wb_cache_alloc", sc_wb_cache_alloc, 2 }, { "wb_pfn_regions", sc_wb_pfn_regions, 1 },
 	{ "wb_dict", sc_wb_dict, 1 }, { "wb_create_path", sc_wb_create_path, 1 },
-	{ "wb_clone_path", sc_wb_clone_path, 1 },
+	{ "wb_clone_path", sc_wb_clone_path, 1 }, { "wb_map_seq", sc_wb_map_seq, 1 },
 };
 
 static void emit_events(void)
